@@ -1086,8 +1086,20 @@ def ob_codec_update(tier):
         # non-parameter dict (checked on the AST); base cases and the two inductive steps are then run against the spec
         fn_ast = ast.parse(textwrap.dedent(inspect.getsource(utils.update_parameters))).body[0]
         rec = [ast.unparse(n) for n in ast.walk(fn_ast) if isinstance(n, ast.Call) and isinstance(n.func, ast.Name) and n.func.id == "update_parameters"]
-        if sorted(rec) != sorted(["update_parameters(element, parameters)", "update_parameters(value, parameters)"]):
-            raise Undecided("update_parameters: recursion scheme changed (%s); the induction argument must be re-stated" % rec)
+        # structurally (local names are not part of it): exactly two recursive calls, each `update_parameters(<target of the enclosing for>, <2nd parameter>)`,
+        # one loop over the object itself (list elements), one over <object>.values() (dict values)
+        p0, p1 = [a.arg for a in fn_ast.args.args][:2]
+        shapes = []
+        for loop in [n for n in ast.walk(fn_ast) if isinstance(n, ast.For)]:
+            for st in loop.body:
+                c = st.value if isinstance(st, ast.Expr) else None
+                if isinstance(c, ast.Call) and isinstance(c.func, ast.Name) and c.func.id == "update_parameters":
+                    ok_args = len(c.args) == 2 and not c.keywords and isinstance(loop.target, ast.Name) and isinstance(c.args[0], ast.Name) \
+                        and c.args[0].id == loop.target.id and isinstance(c.args[1], ast.Name) and c.args[1].id == p1
+                    it = ast.unparse(loop.iter)
+                    shapes.append("elements" if ok_args and it == p0 else "values" if ok_args and it == p0 + ".values()" else "other:" + ast.unparse(c))
+        if sorted(shapes) != ["elements", "values"] or len(rec) != 2:
+            raise Undecided("update_parameters: recursion scheme changed (%s / %s); the induction argument must be re-stated" % (rec, shapes))
         bad, n, obs = _update_parameters_enum(3 if tier == "thorough" else 2)
         if bad:
             args = {"kind": "codec", "what": "update_parameters", "depth": 3 if tier == "thorough" else 2}
@@ -1470,9 +1482,13 @@ def ob_guard_foreign():
 def ob_guard_transient():
     def fn():
         from torchtree.inference.mcmc.mcmc import MCMC
-        src = inspect.getsource(MCMC.run)
-        i_step, i_acc, i_rej, i_save = (src.find(x) for x in ("operator.step()", "operator.accept()", "operator.reject()", "self.save_full_state()"))
-        if min(i_step, i_acc, i_rej, i_save) < 0 or not (i_step < i_acc < i_save and i_step < i_rej < i_save):
+        t_run = ast.parse(textwrap.dedent(inspect.getsource(MCMC.run)))
+
+        def first_call(attr):     # position of the first `<anything>.<attr>()` call (the name of the operator local is not part of the shape)
+            pos = [(n.lineno, n.col_offset) for n in ast.walk(t_run) if isinstance(n, ast.Call) and isinstance(n.func, ast.Attribute) and n.func.attr == attr]
+            return min(pos) if pos else None
+        i_step, i_acc, i_rej, i_save = (first_call(x) for x in ("step", "accept", "reject", "save_full_state"))
+        if None in (i_step, i_acc, i_rej, i_save) or not (i_step < i_acc < i_save and i_step < i_rej < i_save):
             raise Undecided("MCMC.run: call order step < accept/reject < save_full_state not found")
         _, recipes = _discover()
         exempt = {}
